@@ -230,8 +230,6 @@ Fixpoint has_outs (n : node) : bool :=
   | Leaf l => match outs l with [] => false | _ => true end
   | Seq c ms => match ms with [] => false | _ => true end && forallb has_outs ms
   end.
-Fixpoint nodict (n : node) : bool :=
-  match n with Leaf _ => true | Seq c ms => negb (sdict c) && forallb nodict ms end.
 
 Lemma leaves_rebuild : forall n, leaves (rebuild n) = leaves n.
 Proof.
@@ -269,11 +267,6 @@ Proof.
   induction n as [l|c ms IH] using node_ind'; intro HR; [assumption|].
   cbn in HR. apply andb_true_iff in HR as [H1 H2]. cbn. apply andb_true_iff. split; [now destruct ms|now apply forallb_map_rebuild].
 Qed.
-Lemma nodict_rebuild : forall n, nodict n = true -> nodict (rebuild n) = true.
-Proof.
-  induction n as [l|c ms IH] using node_ind'; intro HR; [assumption|].
-  cbn in HR. apply andb_true_iff in HR as [H1 H2]. cbn. rewrite H1. cbn. now apply forallb_map_rebuild.
-Qed.
 Lemma no_sink_in_rebuild : forall n, no_sink_in (rebuild n) = no_sink_in n.
 Proof. intro n. unfold no_sink_in. now rewrite leaves_rebuild. Qed.
 Lemma depth_rebuild : forall n, depth (rebuild n) = depth n.
@@ -301,7 +294,7 @@ Proof.
 Qed.
 
 Definition props (f : nat) (m : node) : Prop :=
-  regular m = true /\ no_sink_in m = true /\ has_outs m = true /\ nodict m = true /\ depth m <= f.
+  regular m = true /\ no_sink_in m = true /\ has_outs m = true /\ depth m <= f.
 
 Definition keepall (f : nat) : Prop :=
   forall m, props f m -> forall I S,
@@ -324,7 +317,7 @@ Proof.
   { apply (IH Pr acc1).
     - intros k Hk. apply in_or_app. left. now apply Hik.
     - intros k Hk. cbn in Hk. apply in_app_or in Hk as [Hk|Hk]; apply in_or_app; [left; now apply Hok|now right]. }
-  destruct Pm as [P1 [P2 [P3 [P4 P5]]]].
+  destruct Pm as [P1 [P2 [P3 P5]]].
   destruct m as [l|c ms'].
   - cbn [fpass]. rewrite (proj2 (subk_spec _ _) Hin). rewrite Hrec. reflexivity.
   - cbn [fpass]. rewrite (K (Seq c ms')); [|repeat split; assumption| |].
@@ -342,7 +335,7 @@ Proof.
   - exists need. split; [reflexivity|auto].
   - inversion HF as [|? ? Pm Pr]; subst.
     destruct (IH Pr need) as [nrr [Hb Hsub]]; [intros; eapply Hn; [right|]; eassumption|].
-    cbn [bpass]. rewrite Hb. destruct Pm as [P1 [P2 [P3 [P4 P5]]]].
+    cbn [bpass]. rewrite Hb. destruct Pm as [P1 [P2 [P3 P5]]].
     destruct (out_keys_nonempty m P1 P3) as [k0 Hk0].
     assert (Ex : existsb (fun k => memk k nrr) (out_keys m) = true).
     { apply existsb_exists. exists k0. split; [assumption|]. apply memk_In. apply Hsub. eapply Hn; [now left|eassumption]. }
@@ -356,11 +349,10 @@ Qed.
 
 Lemma props_children : forall f c ms, props (S f) (Seq c ms) -> Forall (props f) ms.
 Proof.
-  intros f c ms [P1 [P2 [P3 [P4 P5]]]]. apply Forall_forall. intros m Hm.
+  intros f c ms [P1 [P2 [P3 P5]]]. apply Forall_forall. intros m Hm.
   cbn in P1. apply andb_true_iff in P1 as [_ P1]. rewrite forallb_forall in P1.
   pose proof (no_sink_in_children c ms P2) as P2'. rewrite forallb_forall in P2'.
   cbn in P3. apply andb_true_iff in P3 as [_ P3]. rewrite forallb_forall in P3.
-  cbn in P4. apply andb_true_iff in P4 as [_ P4]. rewrite forallb_forall in P4.
   repeat split; auto.
   cbn in P5. apply le_S_n in P5.
   assert (D : forall l, List.In m l -> depth m <= fold_right (fun m d => Nat.max (depth m) d) 0 l).
@@ -369,20 +361,19 @@ Proof.
 Qed.
 Lemma props_rebuild : forall f m, props f m -> props f (rebuild m).
 Proof.
-  intros f m [P1 [P2 [P3 [P4 P5]]]]. repeat split.
+  intros f m [P1 [P2 [P3 P5]]]. repeat split.
   - now apply regular_rebuild.
   - now rewrite no_sink_in_rebuild.
   - now apply has_outs_rebuild.
-  - now apply nodict_rebuild.
   - now rewrite depth_rebuild.
 Qed.
 
 Lemma keepall_all : forall f, keepall f.
 Proof.
   induction f as [|f IH]; intros m P I S HI HS.
-  - destruct P as [_ [_ [_ [_ P5]]]]. destruct m; cbn in P5; lia.
+  - destruct P as [_ [_ [_ P5]]]. destruct m; cbn in P5; lia.
   - destruct m as [l|c ms]; [reflexivity|].
-    pose proof (props_children f c ms P) as PC. destruct P as [P1 [P2 [P3 [P4 P5]]]].
+    pose proof (props_children f c ms P) as PC. destruct P as [P1 [P2 [P3 P5]]].
     cbn [select_sub].
     rewrite (fpass_all f IH ms PC ([], []) (match I with Some i => i | None => in_keys (Seq c ms) end)).
     2:{ intros k Hk. destruct I as [i|]; [now apply (HI i eq_refl)|exact Hk]. }
@@ -402,8 +393,8 @@ Proof.
     rewrite Hb. rewrite map_map. 
     assert (Em : map (fun x => rebuild (rebuild x)) ms = map rebuild ms).
     { apply map_ext. intro a. apply rebuild_idem. }
-    rewrite Em. cbn in P3. apply andb_true_iff in P3 as [P3 _]. cbn in P4. apply andb_true_iff in P4 as [P4 _].
-    destruct ms as [|m0 r]; [discriminate|]. cbn [map]. destruct (sdict c) eqn:Ed; [discriminate|]. cbn. now rewrite Ed.
+    rewrite Em. cbn in P3. apply andb_true_iff in P3 as [P3 _].
+    destruct ms as [|m0 r]; [discriminate|]. reflexivity.
 Qed.
 
 (* ------------------------------------------------------------------ subsequence_sound *)
@@ -414,7 +405,7 @@ Proof.
   - destruct n as [l|c ms].
     + cbn in H. inversion H; subst. destruct P as [P1 [P2 _]]. split; [now split|].
       intros L HL e1 e2 e1' HA Hs. eapply run_kept; eassumption.
-    + pose proof (props_children f c ms P) as PC. destruct P as [P1 [P2 [P3 [P4 P5]]]].
+    + pose proof (props_children f c ms P) as PC. destruct P as [P1 [P2 [P3 P5]]].
       cbn [select_sub] in H.
       rewrite (fpass_all f (keepall_all f) ms PC ([], []) (in_keys (Seq c ms))) in H; [|auto|intros k []].
       assert (PC' : Forall (props f) (map rebuild ms)).
@@ -425,8 +416,7 @@ Proof.
       * apply Forall_forall. intros m Hm. rewrite Forall_forall in PC'. destruct (PC' m Hm) as [Q1 [Q2 _]]. now split.
       * intros m Hm S0 m' Hs. apply (IH m); [|assumption]. rewrite Forall_forall in PC'. now apply PC'.
       * exact Eb.
-      * destruct k2 as [|m0 k2']; [discriminate|].
-        destruct (sdict c && existsb is_seq (m0 :: k2')); [discriminate|]. inversion H; subst n'.
+      * destruct k2 as [|m0 k2']; [discriminate|]. inversion H; subst n'.
         assert (G : good (Seq (default_cfg (sdict c)) (m0 :: k2'))).
         { split.
           - cbn [regular default_cfg sinpl ssel spt is_some negb andb]. apply forallb_forall. intros m Hm.
@@ -441,13 +431,13 @@ Proof.
 Qed.
 
 Lemma subsequence_sound_partial : forall n S n',
-  regular n = true -> no_sink_in n = true -> has_outs n = true -> nodict n = true ->
+  regular n = true -> no_sink_in n = true -> has_outs n = true ->
   select_sub (depth n + 1) n None (Some S) = SOk n' ->
   regular n' = true /\ no_sink_in n' = true
   /\ forall e e', spec_run (leaves n) e = Some e' ->
        exists e'', spec_run (leaves n') e = Some e'' /\ forall k, List.In k S -> e'' k = e' k.
 Proof.
-  intros n S n' H1 H2 H3 H4 H.
+  intros n S n' H1 H2 H3 H.
   destruct (slice_sound_fuel (depth n + 1) n) with (S := S) (n' := n') as [[G1 G2] Sd].
   - repeat split; try assumption. lia.
   - exact H.
@@ -456,19 +446,13 @@ Proof.
     exists e''. split; [assumption|]. intros k Hk. symmetry. now apply H6.
 Qed.
 
-(* D144: a ModuleDict-based nested sequence that itself contains a sequence is silently dropped *)
+(* the former witness of D144 (a ModuleDict-based nested sequence that itself contains a sequence) is sliced soundly *)
 Definition kd : key := ["d"%string].
 Definition d144_node : node :=
   Seq dcfg [Leaf (mk 1 [ka] [kc]);
             Seq {| sinpl := None; ssel := None; spt := false; sdict := true |}
                 [Seq dcfg [Leaf (mk 2 [ka] [kb])]; Leaf (mk 3 [kb] [kd])]].
-Lemma subsequence_sound_refuted :
-  exists n S n' e e', regular n = true /\ no_sink_in n = true /\ has_outs n = true
-    /\ select_sub (depth n + 1) n None (Some S) = SOk n'
-    /\ spec_run (leaves n) e = Some e'
-    /\ exists k e'', List.In k S /\ spec_run (leaves n') e = Some e'' /\ e'' k <> e' k.
-Proof.
-  exists d144_node, [kc; kd], (Seq dcfg [Leaf (mk 1 [ka] [kc])]), (env_of [(ka, In ka)]).
-  eexists. split; [reflexivity|]. split; [reflexivity|]. split; [reflexivity|]. split; [vm_compute; reflexivity|].
-  split; [reflexivity|]. exists kd. eexists. split; [right; now left|]. split; [reflexivity|]. vm_compute. discriminate.
-Qed.
+Lemma subsequence_D144_repaired :
+  select_sub (depth d144_node + 1) d144_node None (Some [kd])
+  = SOk (Seq dcfg [Seq (default_cfg true) [Seq dcfg [Leaf (mk 2 [ka] [kb])]; Leaf (mk 3 [kb] [kd])]]).
+Proof. vm_compute. reflexivity. Qed.
